@@ -299,6 +299,12 @@ def check_c05(tier, seed, replay=None, selftest=False):
         n = 10 if tier == "quick" else 200
         j = gen_mh.mh_jobs(rng, "sha1", n)
         j.update(gen_mh.mh_jobs(rng, "sha256", n))
+        # streams of 2^29 bytes and more (bit length no longer fits 32 bits): quick = one rotating family per algorithm + isal_
+        fams = gen_mh.MH_FAMS[:5]
+        for ai, alg in enumerate(("sha1", "sha256")):
+            sel = [fams[(seed + ai) % 5], "isal"] if tier == "quick" else gen_mh.MH_FAMS
+            for f in sel:
+                j["mhbig-%s-%s" % (alg, f)] = [gen_mh.mh_big_behaviour(rng, alg, f, rng.choice([1 << 29, (1 << 29) + 1500, (1 << 29) + 1024 * 77 + 1016]))]
         return merge_jobs(j, key=lambda n: n, driver="mh")
     return mh_check("C05", tier, seed, replay, mk,
                     "one behaviour = init / update* / finalize of one stream (totals around the 1015/1016 two-block tail threshold and "
@@ -440,11 +446,59 @@ def gate_check(pid, tier, seed, replay, variant, mode, gen, rule, props):
     jobs = [{"name": "gate-%d" % i, "behaviours": bs[i::nj], "driver": "gate", "env": env} for i in range(nj)]
     outs = run_jobs(jobs, exe, "TraceGate")
     nb, ne = collect(chk, outs, props | {"SPEC"}, marker="Mark")
+    if pid == "C16":
+        nb2, ne2 = legacy_agreement(chk, seed, tier)
+        nb += nb2
+        ne += ne2
     _finish_traces(chk, jobs, outs, nb, ne, rule)
     chk.cov["entries"] = len(entries)
     chk.assumptions += ["argument signatures (one letter per parameter) are transcribed from the public headers into harness/drv_gate.c",
                         "cryptographic work = an internal dispatched function entered (ld --wrap seams) or an argument object changed"]
     return chk.finish()
+
+
+def legacy_agreement(chk, seed, tier):
+    """second clause of C16: for the same valid arguments each legacy entry point computes what its isal_ counterpart computes.
+    Both spellings are driven over the functional call spaces and validated against the same deterministic specification;
+    a functional violation on either spelling is a disagreement (or both are wrong, which the functional checks report too)."""
+    rng = random.Random(seed * 16 + 5)
+    k = 1 if tier == "quick" else 8
+    FUNC = {"C01", "C02", "C03", "C04", "C05", "C06", "C07", "C09", "C10", "C11", "FAULT"}
+    nb = ne = 0
+    api = ["isal", "legacy"]
+    hexe = build.build_driver("hash", HASH_SRCS)
+    sets = [(hexe, "TraceHash", hash_jobs(seed + 160, 6 * k, fams=api), "HReset")]
+    aexe = build.build_driver("aes", AES_SRCS)
+    aj = {}
+    aj.update(gen_aes.gcm_oneshot_behaviours(rng, 14 * k, fams=api))
+    aj.update(gen_aes.gcm_stream_jobs(rng, 3 * k, fams=api))
+    aj.update(gen_aes.xts_jobs(rng, 8 * k, fams=api))
+    cj = gen_aes.cbc_jobs(rng, 4 * k)
+    aj.update({n: b for n, b in cj.items() if "-isal-" in n or "-legacy-" in n})
+    kj = gen_aes.kexp_jobs(rng, 3 * k)
+    aj.update({n: b for n, b in kj.items() if "-isal-" in n or "-legacy-" in n})
+    sets.append((aexe, "TraceAes", merge_jobs(aj), "Mark"))
+    mexe = build.build_driver("mh", MH_SRCS, wraps=MH_WRAPS)
+    mj = {}
+    for alg in ("sha1", "sha256", "murmur"):
+        mj.update(gen_mh.mh_jobs(rng, alg, 6 * k, fams=api))
+    rj = gen_mh.rh_jobs(rng, 5 * k)
+    mj.update({n: b for n, b in rj.items() if n.startswith("rh-disp-") and not n.endswith("-int")})
+    sets.append((mexe, "TraceMh", merge_jobs(mj, key=lambda n: n, driver="mh"), "Mark"))
+    for exe, spec, jobs, marker in sets:
+        outs = run_jobs(jobs, exe, spec)
+        for o in outs:
+            nb += len(o["job"]["behaviours"])
+            ne += o["result"]["events"]
+            for v in o["result"]["viol"]:
+                if v["p"] in FUNC:
+                    bi = _behaviour_of_event(o["trace"], v["l"], marker)
+                    beh = o["job"]["behaviours"][min(bi, len(o["job"]["behaviours"]) - 1)]
+                    chk.add_violation({"p": "C16", "what": "legacy-and-isal-entry-points-disagree-with-the-specification", "l": v["l"],
+                                       "info": [o["job"]["name"], v["p"], v["what"], v["info"]]},
+                                      replay_lines="# driver: %s\n%s\n" % (o["job"].get("driver", "?"), "\n".join(beh)))
+    chk.cov["legacy_agreement_behaviours"] = nb
+    return nb, ne
 
 
 @reg("C13")
